@@ -44,7 +44,12 @@ def gen(rng, tier):
         k += 1
         r = rng.random()
         n = rng.choice([120, 250, 400]) if big and rng.random() < 0.1 else None
-        if k % 89 == 0:
+        if k % 331 == 0:
+            # a HUGE mapping (10 001 ... 30 000 entries) while sibling locals wait in the work list: everything at one depth
+            # before anything deeper, the frame's locals are never crowded out (oracle only: the interpreted driver needs
+            # minutes for such a case)
+            yield cc.gen_huge(rng)
+        elif k % 89 == 0:
             # time budgets outside the domain of the model (not an int of magnitude < 2^32): what the code does is recorded
             c = cc.gen_clock(rng)
             c['stream'] = 'budget-outside'
@@ -143,6 +148,8 @@ def oracle(case, obs):
         v.append('trace_call raised into the host: ' + obs['raised'])
     for ai, s in cc.snapshots_by_action(case, obs):
         v += cc.judge_bounds(case, obs, live, ai, s)
+        if case.get('stream') == 'huge':
+            v += cc.judge_frames(case, obs, live, ai, s)     # the later locals are still on the frame
         if cc.clock_of(case) is not None:
             # the time budget: which frames carry variables, and that they carry all of them (never cut half-way)
             v += cc.judge_frames(case, obs, live, ai, s)
@@ -152,6 +159,8 @@ def oracle(case, obs):
 def model_request(case, obs):
     if any(a.get('raw_limits') or 'raw_max_ms' in a for a in case.get('actions', [])):
         return None           # limits / time budget outside the domain of the model
+    if case.get('stream') == 'huge':
+        return None           # oracle only (driver too slow for 10 000-entry mappings)
     if case.get('kind') == 'race':
         return None           # a schedule of two threads: judged by the oracle (each snapshot against its own limits)
     return cc.model_request(case, obs)
@@ -186,6 +195,8 @@ def label(case, obs):
         return 'limits-outside/%s=%r/snap%d' % (list(rl)[0], list(rl.values())[0], len(obs.get('snapshots', [])))
     if case.get('clock'):
         return 'clock/%s/%s' % (case.get('frame_type', ''), cc.clock_label(case, obs))
+    if case.get('stream') == 'huge':
+        return 'huge/%s' % case.get('huge')
     if case.get('stream') == 'stale-capture':
         return 'stale-capture/%s/%s' % (case.get('stage'), obs.get('capture_event', 'no-event'))
     if case.get('stream') == 'deferred':
